@@ -1,15 +1,426 @@
 import PsyVerif.Model.OMP
+import PsyVerif.Lemmas.OMPSem
 import PsyVerif.Lemmas.MiniFSem
+/-! # C09 — OpenMP-parallelised loops compute the serial result on any schedule
+
+`C09_partial`: for every loop, every clause lists, every store, every trip count and EVERY
+schedule (any number of threads, any assignment of iterations to threads, any order of the
+iterations): if the iterations are pairwise Bernstein-independent on shared locations
+(`IterIndep`, the guarantee the dependence analysis — property C08 — is supposed to give) and no
+iteration reads a privatised scalar before writing it (`ScalarsUnconditional`), the parallel run
+does not read an undefined private copy and leaves every shared location as the serial loop does.
+
+The pinned code violates the full statement: `conditional_private_counterexample`,
+`written_once_shared_counterexample` (both refute `C09_statement`), `intdiv_counterexample`. -/
 namespace C09
 open MiniF
 
-/-- `do i = 0, 1; if (b(i) > 10) t = b(i); c(i) = t; enddo` with i=0, t=1, b=2, c=3 -/
+/-! ## hypotheses -/
+
+/-- pairwise Bernstein independence of the iterations on shared locations (element level,
+dynamic footprints at the store on loop entry) -/
+def IterIndep (P : ParDo) (σ : Store) : Prop :=
+  ∀ k < P.trips σ, ∀ k' < P.trips σ, k ≠ k' → ∀ l ∈ (P.iterFp σ k).2, l.1 ∉ P.privs →
+    l ∉ (P.iterFp σ k').1 ∧ l ∉ (P.iterFp σ k').2
+
+/-- no iteration reads a privatised variable (other than the parallel loop's own variable)
+before it has written it -/
+def ScalarsUnconditional (P : ParDo) (σ : Store) : Prop :=
+  ∀ k < P.trips σ, ∀ l ∈ (P.iterFp σ k).1, l = (P.v, 0, 0) ∨ l.1 ∉ P.privs
+
+/-- the driver's Boolean check is the hypothesis of the theorem -/
+theorem iterIndepB_iff (P : ParDo) (σ : Store) : iterIndepB P σ = true ↔ IterIndep P σ := by
+  simp only [iterIndepB, IterIndep, List.all_eq_true, List.mem_range, Bool.or_eq_true, beq_iff_eq,
+    Bool.and_eq_true, Bool.not_eq_true', List.contains_eq_mem, decide_eq_true_eq, decide_eq_false_iff_not]
+  constructor
+  · intro h k hk k' hk' hne l hl hp
+    rcases h k hk k' hk' with h | h
+    · exact absurd h hne
+    · rcases h l hl with h | h
+      · exact absurd h hp
+      · exact h
+  · intro h k hk k' hk'
+    by_cases hne : k = k'
+    · exact Or.inl hne
+    · refine Or.inr (fun l hl => ?_)
+      by_cases hp : l.1 ∈ P.privs
+      · exact Or.inl hp
+      · exact Or.inr (h k hk k' hk' hne l hl hp)
+
+theorem scalarsUncondB_iff (P : ParDo) (σ : Store) :
+    scalarsUncondB P σ = true ↔ ScalarsUnconditional P σ := by
+  simp only [scalarsUncondB, ScalarsUnconditional, List.all_eq_true, List.mem_range, Bool.or_eq_true,
+    beq_iff_eq, Bool.not_eq_true', List.contains_eq_mem, decide_eq_false_iff_not]
+
+instance (P : ParDo) (σ : Store) : Decidable (IterIndep P σ) := decidable_of_iff _ (iterIndepB_iff P σ)
+instance (P : ParDo) (σ : Store) : Decidable (ScalarsUnconditional P σ) :=
+  decidable_of_iff _ (scalarsUncondB_iff P σ)
+
+/-! ## the invariant: iterations done so far have deposited their serial effect -/
+
+/-- `ρ` holds, on shared locations, the effect of exactly the iterations in `D`: a location
+written by iteration `k ∈ D` has the value iteration `k` computes from the entry store, every
+other location still has its entry value. -/
+def Inv (P : ParDo) (σ₀ : Store) (D : Nat → Prop) (ρ : Store) : Prop :=
+  ∀ l : Loc, l.1 ∉ P.privs →
+    (∀ k, D k → l ∈ (P.iterFp σ₀ k).2 → ρ l = exec P.body (P.iterStore σ₀ k) l) ∧
+    ((∀ k, D k → l ∉ (P.iterFp σ₀ k).2) → ρ l = σ₀ l)
+
+theorem Inv.congr {P : ParDo} {σ₀ : Store} {D D' : Nat → Prop} {ρ ρ' : Store}
+    (h : Inv P σ₀ D ρ) (hD : ∀ k, D' k ↔ D k) (hρ : ∀ l : Loc, l.1 ∉ P.privs → ρ' l = ρ l) :
+    Inv P σ₀ D' ρ' := by
+  intro l hl
+  rw [hρ l hl]
+  exact ⟨fun k hk => (h l hl).1 k ((hD k).mp hk), fun hk => (h l hl).2 (fun k hk' => hk k ((hD k).mpr hk'))⟩
+
+theorem v_mem_privs (P : ParDo) : P.v ∈ P.privs := by simp [ParDo.privs]
+
+theorem ne_v_of_shared (P : ParDo) {l : Loc} (hl : l.1 ∉ P.privs) : l ≠ (P.v, 0, 0) := by
+  intro h; subst h; exact hl (v_mem_privs P)
+
+/-- **one iteration, run in any thread's view of a store satisfying the invariant**: it has the
+same footprint as at loop entry and extends the invariant.  (This is where Bernstein
+independence and write-before-read of privatised scalars are used; the commutation of two
+iterations is the special case of two steps.) -/
+theorem iter_step (P : ParDo) (σ₀ : Store) (hI : IterIndep P σ₀) (hS : ScalarsUnconditional P σ₀)
+    {D : Nat → Prop} (hD : ∀ j, D j → j < P.trips σ₀) {ρ V : Store} (hInv : Inv P σ₀ D ρ)
+    (hV : ∀ l : Loc, l.1 ∉ P.privs → V l = ρ l) {k : Nat} (hk : k < P.trips σ₀) (hkD : ¬ D k) :
+    fp P.body (V.set (P.v, 0, 0) (eval P.lo σ₀ + (k : Int) * eval P.step σ₀)) = P.iterFp σ₀ k ∧
+    Inv P σ₀ (fun j => j = k ∨ D j)
+      (exec P.body (V.set (P.v, 0, 0) (eval P.lo σ₀ + (k : Int) * eval P.step σ₀))) := by
+  have hne : ∀ j, D j → j ≠ k := fun j hj h => hkD (h ▸ hj)
+  -- the view agrees with the entry store on the exposed reads of iteration k
+  have hag : AgreeL (fun l => l ∈ (P.iterFp σ₀ k).1) (P.iterStore σ₀ k)
+      (V.set (P.v, 0, 0) (eval P.lo σ₀ + (k : Int) * eval P.step σ₀)) := by
+    intro l hl
+    rcases hS k hk l hl with h | h
+    · subst h; simp [ParDo.iterStore]
+    · have hlv := ne_v_of_shared P h
+      simp only [ParDo.iterStore, set_apply, if_neg hlv]
+      rw [hV l h]
+      refine ((hInv l h).2 (fun j hj hw => ?_)).symm
+      exact (hI j (hD j hj) k hk (hne j hj) l hw h).1 hl
+  obtain ⟨e, a⟩ := (fp_sound P.body).loc _ _ _ (fun l hl => hl) hag
+  have e' : fp P.body (V.set (P.v, 0, 0) (eval P.lo σ₀ + (k : Int) * eval P.step σ₀)) = P.iterFp σ₀ k := e
+  refine ⟨e', fun l hl => ?_⟩
+  have hlv := ne_v_of_shared P hl
+  have hframe : l ∉ (P.iterFp σ₀ k).2 →
+      exec P.body (V.set (P.v, 0, 0) (eval P.lo σ₀ + (k : Int) * eval P.step σ₀)) l = ρ l := by
+    intro hw
+    rw [(fp_sound P.body).frame _ l (by rw [e']; exact hw), set_apply, if_neg hlv, hV l hl]
+  constructor
+  · intro j hj hw
+    rcases hj with hj | hj
+    · subst hj
+      exact (a l (Or.inr hw)).symm
+    · have hwk : l ∉ (P.iterFp σ₀ k).2 := (hI j (hD j hj) k hk (hne j hj) l hw hl).2
+      rw [hframe hwk]
+      exact (hInv l hl).1 j hj hw
+  · intro hnw
+    rw [hframe (hnw k (Or.inl rfl))]
+    exact (hInv l hl).2 (fun j hj => hnw j (Or.inr hj))
+
+/-! ## the serial loop -/
+
+theorem serial_inv (P : ParDo) (σ₀ : Store) (hI : IterIndep P σ₀) (hS : ScalarsUnconditional P σ₀) :
+    ∀ m, m ≤ P.trips σ₀ →
+      Inv P σ₀ (fun j => j < m) (iters (exec P.body) P.v (eval P.lo σ₀) (eval P.step σ₀) m 0 σ₀) := by
+  intro m
+  induction m with
+  | zero =>
+    intro _ l _
+    exact ⟨fun k hk => absurd hk (Nat.not_lt_zero k), fun _ => rfl⟩
+  | succ m ih =>
+    intro hm
+    have ih' := ih (Nat.le_of_succ_le hm)
+    rw [iters_succ_last]
+    have := (iter_step P σ₀ hI hS (D := fun j => j < m) (fun j hj => Nat.lt_of_lt_of_le hj (Nat.le_of_succ_le hm))
+      ih' (fun _ _ => rfl) (k := m) hm (Nat.lt_irrefl m)).2
+    simp only [Int.zero_add]
+    exact this.congr (fun j => by omega) (fun _ _ => rfl)
+
+/-! ## the parallel loop -/
+
+/-- every thread's undefined copies are privatised variables -/
+def ThreadsOK (P : ParDo) (σ₀ : Store) (s : OState) : Prop :=
+  ∀ t, ∀ x ∈ (threadMem σ₀ P.undef0 s.thr t).undef, x ∈ P.privs
+
+theorem stepOMP_eq (P : ParDo) (lo step : Int) (σ₀ : Store) (s : OState) (t k : Nat) (V' : PStore)
+    (h : execP P.body ⟨(view P.privs s.shared (threadMem σ₀ P.undef0 s.thr t)).st.set (P.v, 0, 0)
+        (lo + (k : Int) * step),
+      (view P.privs s.shared (threadMem σ₀ P.undef0 s.thr t)).undef.filter (· ≠ P.v)⟩ = some V') :
+    stepOMP P lo step σ₀ s t k = some ⟨unview P.privs s.shared V'.st, (t, V') :: s.thr⟩ := by
+  simp only [stepOMP, h]
+
+theorem step_ok (P : ParDo) (σ₀ : Store) (hI : IterIndep P σ₀) (hS : ScalarsUnconditional P σ₀)
+    {D : Nat → Prop} (hD : ∀ j, D j → j < P.trips σ₀) (s : OState) (hInv : Inv P σ₀ D s.shared)
+    (hT : ThreadsOK P σ₀ s) (t : Nat) {k : Nat} (hk : k < P.trips σ₀) (hkD : ¬ D k) :
+    ∃ s', stepOMP P (eval P.lo σ₀) (eval P.step σ₀) σ₀ s t k = some s' ∧
+      Inv P σ₀ (fun j => j = k ∨ D j) s'.shared ∧ ThreadsOK P σ₀ s' := by
+  have hview : ∀ l : Loc, l.1 ∉ P.privs →
+      (view P.privs s.shared (threadMem σ₀ P.undef0 s.thr t)).st l = s.shared l := by
+    intro l hl
+    simp [view, hl]
+  obtain ⟨e, hinv'⟩ := iter_step P σ₀ hI hS hD hInv hview hk hkD
+  obtain ⟨U', eP, sub, _⟩ := execP_sound P.body
+    ((view P.privs s.shared (threadMem σ₀ P.undef0 s.thr t)).st.set (P.v, 0, 0)
+      (eval P.lo σ₀ + (k : Int) * eval P.step σ₀))
+    ((view P.privs s.shared (threadMem σ₀ P.undef0 s.thr t)).undef.filter (· ≠ P.v))
+    (by
+      intro x hx hm
+      rw [e] at hm
+      have hx' := List.mem_filter.mp hx
+      have hxv : x ≠ P.v := by simpa using hx'.2
+      rcases hS k hk _ hm with h | h
+      · exact hxv (congrArg Prod.fst h)
+      · exact h (hT t x hx'.1))
+  refine ⟨_, stepOMP_eq P _ _ σ₀ s t k _ eP, ?_, ?_⟩
+  · exact hinv'.congr (fun _ => Iff.rfl) (fun l hl => by simp [unview, hl])
+  · intro t' x hx
+    simp only [threadMem, List.lookup_cons] at hx
+    by_cases htt : t' = t
+    · subst htt
+      simp only [beq_self_eq_true] at hx
+      exact hT t' x (List.mem_filter.mp (sub x hx)).1
+    · have : (t' == t) = false := by simpa using htt
+      simp only [this] at hx
+      exact hT t' x hx
+
+theorem runSched_ok (P : ParDo) (σ₀ : Store) (hI : IterIndep P σ₀) (hS : ScalarsUnconditional P σ₀) :
+    ∀ (sched : List (Nat × Nat)) (D : Nat → Prop) (s : OState),
+      (∀ j, D j → j < P.trips σ₀) → Inv P σ₀ D s.shared → ThreadsOK P σ₀ s →
+      (∀ k ∈ sched.map Prod.snd, k < P.trips σ₀ ∧ ¬ D k) → (sched.map Prod.snd).Nodup →
+      ∃ s', runSched P (eval P.lo σ₀) (eval P.step σ₀) σ₀ sched s = some s' ∧
+        Inv P σ₀ (fun j => j ∈ sched.map Prod.snd ∨ D j) s'.shared := by
+  intro sched
+  induction sched with
+  | nil =>
+    intro D s _ hInv _ _ _
+    exact ⟨s, rfl, hInv.congr (fun k => by simp) (fun _ _ => rfl)⟩
+  | cons tk rest ih =>
+    intro D s hD hInv hT hks hnd
+    obtain ⟨t, k⟩ := tk
+    simp only [List.map_cons, List.nodup_cons] at hnd
+    have hk := hks k (by simp)
+    obtain ⟨s₁, e₁, inv₁, t₁⟩ := step_ok P σ₀ hI hS hD s hInv hT t hk.1 hk.2
+    obtain ⟨s₂, e₂, inv₂⟩ := ih (fun j => j = k ∨ D j) s₁
+      (fun j hj => by rcases hj with hj | hj; exact hj ▸ hk.1; exact hD j hj) inv₁ t₁
+      (fun j hj => ⟨(hks j (by simp [hj])).1, fun h => by
+        rcases h with h | h
+        · exact hnd.1 (h ▸ hj)
+        · exact (hks j (by simp [hj])).2 h⟩) hnd.2
+    refine ⟨s₂, by simp only [runSched, e₁, e₂], inv₂.congr (fun j => ?_) (fun _ _ => rfl)⟩
+    simp only [List.map_cons, List.mem_cons]
+    constructor
+    · rintro ((h | h) | h)
+      · exact Or.inr (Or.inl h)
+      · exact Or.inl h
+      · exact Or.inr (Or.inr h)
+    · rintro (h | h | h)
+      · exact Or.inl (Or.inr h)
+      · exact Or.inl (Or.inl h)
+      · exact Or.inr h
+
+/-! ## The property -/
+
+/-- **C09 (under the hypotheses that exclude the known defect classes).**  For ALL schedules —
+any number of threads, any assignment of iterations to threads, any interleaving of whole
+iterations — all stores and all trip counts: the parallel loop never reads an undefined private
+copy and leaves every shared location exactly as the serial loop does.  (Excluded, as in the
+property statement: the values of the privatised variables after the region.) -/
+theorem C09_partial (P : ParDo) (σ : Store) (hI : IterIndep P σ) (hS : ScalarsUnconditional P σ)
+    (sched : List (Nat × Nat)) (hv : ValidSched (P.trips σ) sched) :
+    ∃ τ, execOMP P sched σ = some τ ∧ SharedEq P.privs τ (exec P.serial σ) := by
+  have hmem : ∀ k, k ∈ sched.map Prod.snd ↔ k < P.trips σ := fun k => by
+    rw [hv.mem_iff, List.mem_range]
+  have hnd : (sched.map Prod.snd).Nodup := hv.nodup_iff.mpr List.nodup_range
+  obtain ⟨s', e, inv⟩ := runSched_ok P σ hI hS sched (fun _ => False) ⟨σ, []⟩
+    (fun _ h => h.elim) (fun l _ => ⟨fun _ h => h.elim, fun _ => rfl⟩)
+    (fun t x hx => by
+      simp only [threadMem, List.lookup_nil, ParDo.undef0] at hx
+      exact (List.mem_filter.mp hx).1)
+    (fun k hk => ⟨(hmem k).mp hk, fun h => h⟩) hnd
+  refine ⟨s'.shared, by simp only [execOMP, e], fun l hl => ?_⟩
+  have invO : Inv P σ (fun j => j < P.trips σ) s'.shared :=
+    inv.congr (fun k => by simp [hmem k]) (fun _ _ => rfl)
+  have invS := serial_inv P σ hI hS (P.trips σ) (Nat.le_refl _)
+  have hser : exec P.serial σ l =
+      iters (exec P.body) P.v (eval P.lo σ) (eval P.step σ) (P.trips σ) 0 σ l := by
+    simp only [ParDo.serial, exec, runIters_eq_iters, set_apply, if_neg (ne_v_of_shared P hl)]
+    rfl
+  rw [hser]
+  by_cases h : ∃ k, k < P.trips σ ∧ l ∈ (P.iterFp σ k).2
+  · obtain ⟨k, hk, hw⟩ := h
+    rw [(invO l hl).1 k hk hw, (invS l hl).1 k hk hw]
+  · have hn : ∀ k, k < P.trips σ → l ∉ (P.iterFp σ k).2 := fun k hk hw => h ⟨k, hk, hw⟩
+    rw [(invO l hl).2 hn, (invS l hl).2 hn]
+
+/-- the theorem for the clauses PSyclone infers (`annotate` = `infer_sharing_attributes`) -/
+theorem C09_partial_inferred (v : Nat) (lo hi step : Expr) (body : Stmt) (σ : Store)
+    (hI : IterIndep (annotate v lo hi step body) σ)
+    (hS : ScalarsUnconditional (annotate v lo hi step body) σ)
+    (sched : List (Nat × Nat)) (hv : ValidSched ((annotate v lo hi step body).trips σ) sched) :
+    ∃ τ, execOMP (annotate v lo hi step body) sched σ = some τ ∧
+      SharedEq (annotate v lo hi step body).privs τ (exec (.loop v lo hi step body) σ) :=
+  C09_partial _ σ hI hS sched hv
+
+/-- Two independent iterations commute on shared locations (Bernstein, element level): the
+two-iteration instance of the theorem, for one thread or two. -/
+theorem C09_iterations_commute (P : ParDo) (σ : Store) (hI : IterIndep P σ)
+    (hS : ScalarsUnconditional P σ) (h2 : P.trips σ = 2) (t t' : Nat) :
+    ∃ τ τ', execOMP P [(t, 0), (t', 1)] σ = some τ ∧ execOMP P [(t', 1), (t, 0)] σ = some τ' ∧
+      SharedEq P.privs τ τ' := by
+  obtain ⟨τ, e, h⟩ := C09_partial P σ hI hS [(t, 0), (t', 1)]
+    (by rw [h2]; show List.Perm [0, 1] (List.range 2); decide)
+  obtain ⟨τ', e', h'⟩ := C09_partial P σ hI hS [(t', 1), (t, 0)]
+    (by rw [h2]; show List.Perm [1, 0] (List.range 2); decide)
+  exact ⟨τ, τ', e, e', fun l hl => (h l hl).trans (h' l hl).symm⟩
+
+/-! ## the full statement, and why the pinned code does not satisfy it -/
+
+/-- independence on array locations only — what the array part of the dependence analysis (C08)
+is to guarantee; scalars are the business of `validateScalars` + `inferSharing` -/
+def ArraysIndep (P : ParDo) (σ : Store) : Prop :=
+  ∀ k < P.trips σ, ∀ k' < P.trips σ, k ≠ k' → ∀ l ∈ (P.iterFp σ k).2, l.1 ∉ stmtScalars P.serial →
+    l ∉ (P.iterFp σ k').1 ∧ l ∉ (P.iterFp σ k').2
+
+/-- Boolean form of `ArraysIndep` -/
+def arraysIndepB (P : ParDo) (σ : Store) : Bool :=
+  (List.range (P.trips σ)).all fun k => (List.range (P.trips σ)).all fun k' =>
+    k == k' || (P.iterFp σ k).2.all fun l =>
+      (stmtScalars P.serial).contains l.1 || (!(P.iterFp σ k').1.contains l && !(P.iterFp σ k').2.contains l)
+
+theorem arraysIndepB_iff (P : ParDo) (σ : Store) : arraysIndepB P σ = true ↔ ArraysIndep P σ := by
+  simp only [arraysIndepB, ArraysIndep, List.all_eq_true, List.mem_range, Bool.or_eq_true, beq_iff_eq,
+    Bool.and_eq_true, Bool.not_eq_true', List.contains_eq_mem, decide_eq_true_eq, decide_eq_false_iff_not]
+  constructor
+  · intro h k hk k' hk' hne l hl hp
+    rcases h k hk k' hk' with h | h
+    · exact absurd h hne
+    · rcases h l hl with h | h
+      · exact absurd h hp
+      · exact h
+  · intro h k hk k' hk'
+    by_cases hne : k = k'
+    · exact Or.inl hne
+    · refine Or.inr (fun l hl => ?_)
+      by_cases hp : l.1 ∈ stmtScalars P.serial
+      · exact Or.inl hp
+      · exact Or.inr (h k hk k' hk' hne l hl hp)
+
+instance (P : ParDo) (σ : Store) : Decidable (ArraysIndep P σ) := decidable_of_iff _ (arraysIndepB_iff P σ)
+
+/-- The property at full strength: every loop whose scalars pass `validate` and whose array
+accesses are independent gives the serial result on every schedule.  FALSE for the pinned code. -/
+def C09_statement : Prop :=
+  ∀ (v : Nat) (lo hi step : Expr) (body : Stmt) (σ : Store) (sched : List (Nat × Nat)),
+    validateScalars (.loop v lo hi step body) = true →
+    (inferSharing (.loop v lo hi step body)).sync = [] →
+    ArraysIndep (annotate v lo hi step body) σ →
+    ValidSched ((annotate v lo hi step body).trips σ) sched →
+    ∃ τ, execOMP (annotate v lo hi step body) sched σ = some τ ∧
+      SharedEq (annotate v lo hi step body).privs τ (exec (.loop v lo hi step body) σ)
+
+/-- `if (b(i) > 10) t = b(i); c(i) = t`   (ids: i=0, t=1, b=2, c=3) -/
 def condBody : Stmt :=
   .seq (.ite (.bin .gt (.idx1 2 (.var 0)) (.lit 10)) (.assign 1 (.idx1 2 (.var 0))) .skip)
        (.store1 3 (.var 0) (.var 1))
 
-def condLoop : ParDo := annotate 0 (.lit 0) (.lit 1) (.lit 1) condBody
+/-- t = 5, b(0) = 20, b(1) = 3 -/
+def condStore : Store := storeOf [((1, 0, 0), 5), ((2, 0, 0), 20), ((2, 1, 0), 3)]
 
-example : condLoop.priv = [0] ∧ condLoop.fpriv = [1] := by decide
+example : (inferSharing (.loop 0 (.lit 0) (.lit 1) (.lit 1) condBody)) = ⟨[0], [1], []⟩ := by decide
+
+/-- The conditionally written scalar is accepted and made firstprivate; on the schedule
+"thread 0 runs iteration 0, thread 1 runs iteration 1" the parallel run stores the stale
+`t = 5` into `c(1)` where the serial run stores `20`. -/
+theorem conditional_private_counterexample : ¬ C09_statement := by
+  intro h
+  obtain ⟨τ, hτ, heq⟩ := h 0 (.lit 0) (.lit 1) (.lit 1) condBody condStore [(0, 0), (1, 1)]
+    (by decide) (by decide) (by decide) (by decide)
+  have e1 : (execOMP (annotate 0 (.lit 0) (.lit 1) (.lit 1) condBody) [(0, 0), (1, 1)] condStore).map
+      (fun τ => τ.get (3, 1, 0)) = some 5 := by decide
+  have e2 : (exec (.loop 0 (.lit 0) (.lit 1) (.lit 1) condBody) condStore).get (3, 1, 0) = 20 := by decide
+  have e3 := heq (3, 1, 0) (by decide)
+  rw [hτ] at e1
+  simp only [Option.map_some, Option.some.injEq] at e1
+  rw [e1, e2] at e3
+  exact absurd e3 (by decide)
+
+/-- `do i = 0, 1; if (b(i) > 10) then; do j = 1, 1; t = b(i); enddo; endif; c(i) = t` gets
+`private(t)` (the write sits in a loop, the IfBlock is outside that loop): the second thread
+reads an UNDEFINED copy (ids: i=0, t=1, b=2, c=3, j=4). -/
+def condInnerBody : Stmt :=
+  .seq (.ite (.bin .gt (.idx1 2 (.var 0)) (.lit 10))
+          (.loop 4 (.lit 1) (.lit 1) (.lit 1) (.assign 1 (.idx1 2 (.var 0)))) .skip)
+       (.store1 3 (.var 0) (.var 1))
+
+theorem undefined_private_counterexample :
+    (annotate 0 (.lit 0) (.lit 1) (.lit 1) condInnerBody).priv = [0, 4, 1] ∧
+    execOMP (annotate 0 (.lit 0) (.lit 1) (.lit 1) condInnerBody) [(0, 0), (1, 1)] condStore = none := by
+  decide
+
+/-- `t = b(i); c(i) = 7`  (ids as above): `t` has a single access, passes `validate`
+(WARN_SCALAR_WRITTEN_ONCE is ignored) and stays shared. -/
+def onceBody : Stmt := .seq (.assign 1 (.idx1 2 (.var 0))) (.store1 3 (.var 0) (.lit 7))
+
+/-- Running the iterations in the order 1, 0 leaves `t = b(0) = 20`; the serial loop leaves
+`t = b(1) = 3`, and `t` is shared. -/
+theorem written_once_shared_counterexample : ¬ C09_statement := by
+  intro h
+  obtain ⟨τ, hτ, heq⟩ := h 0 (.lit 0) (.lit 1) (.lit 1) onceBody condStore [(0, 1), (1, 0)]
+    (by decide) (by decide) (by decide) (by decide)
+  have e1 : (execOMP (annotate 0 (.lit 0) (.lit 1) (.lit 1) onceBody) [(0, 1), (1, 0)] condStore).map
+      (fun τ => τ.get (1, 0, 0)) = some 20 := by decide
+  have e2 : (exec (.loop 0 (.lit 0) (.lit 1) (.lit 1) onceBody) condStore).get (1, 0, 0) = 3 := by decide
+  have e3 := heq (1, 0, 0) (by decide)
+  rw [hτ] at e1
+  simp only [Option.map_some, Option.some.injEq] at e1
+  rw [e1, e2] at e3
+  exact absurd e3 (by decide)
+
+/-- `c(i/2+1) = b(i)` for i = 0, 1 (inherited from C08, which reports it parallelisable): the
+iterations are not independent and the order 1, 0 leaves `c(1) = b(0)` instead of `b(1)`. -/
+def intdivLoop : ParDo :=
+  annotate 0 (.lit 0) (.lit 1) (.lit 1)
+    (.store1 3 (.bin .add (.bin .div (.var 0) (.lit 2)) (.lit 1)) (.idx1 2 (.var 0)))
+
+theorem intdiv_counterexample :
+    ¬ IterIndep intdivLoop condStore ∧
+    (execOMP intdivLoop [(0, 1), (1, 0)] condStore).map (fun τ => τ.get (3, 1, 0)) = some 20 ∧
+    (exec intdivLoop.serial condStore).get (3, 1, 0) = 3 := by
+  decide
+
+/-! ## non-vacuity and sanity evaluations -/
+
+/-- `t = b(i) + 1; c(i) = t * 2` over i = 0..2 -/
+def goodBody : Stmt :=
+  .seq (.assign 1 (.bin .add (.idx1 2 (.var 0)) (.lit 1))) (.store1 3 (.var 0) (.bin .mul (.var 1) (.lit 2)))
+
+def goodLoop : ParDo := annotate 0 (.lit 0) (.lit 2) (.lit 1) goodBody
+
+example : goodLoop.priv = [0, 1] ∧ goodLoop.fpriv = [] := by decide
+/-- the hypotheses of `C09_partial` are satisfiable on a non-trivial loop (3 iterations, a temporary) -/
+example : IterIndep goodLoop condStore ∧ ScalarsUnconditional goodLoop condStore ∧ goodLoop.trips condStore = 3 := by
+  decide
+example : ValidSched 3 [(1, 2), (0, 0), (1, 1)] := by decide
+/-- … and the conclusion, evaluated: iteration order 2,0,1 on two threads gives c = (42, 8, 2) as serially -/
+example : (execOMP goodLoop [(1, 2), (0, 0), (1, 1)] condStore).map
+    (fun τ => [τ.get (3, 0, 0), τ.get (3, 1, 0), τ.get (3, 2, 0)]) = some [42, 8, 2] := by decide
+example : ((exec goodLoop.serial condStore).get (3, 0, 0), (exec goodLoop.serial condStore).get (3, 1, 0),
+    (exec goodLoop.serial condStore).get (3, 2, 0)) = (42, 8, 2) := by decide
+/-- the conditional loop violates exactly `ScalarsUnconditional`, the written-once loop exactly `IterIndep` -/
+example : IterIndep (annotate 0 (.lit 0) (.lit 1) (.lit 1) condBody) condStore ∧
+    ¬ ScalarsUnconditional (annotate 0 (.lit 0) (.lit 1) (.lit 1) condBody) condStore := by decide
+example : ¬ IterIndep (annotate 0 (.lit 0) (.lit 1) (.lit 1) onceBody) condStore ∧
+    ScalarsUnconditional (annotate 0 (.lit 0) (.lit 1) (.lit 1) onceBody) condStore := by decide
+/-- `validate`'s scalar rule: a reduction and a read-then-write are refused, need_sync is reported -/
+example : validateScalars (.loop 0 (.lit 0) (.lit 1) (.lit 1) (.assign 1 (.bin .add (.var 1) (.idx1 2 (.var 0))))) = false := by
+  decide
+example : (inferSharing (.loop 0 (.lit 0) (.lit 1) (.lit 1)
+    (.assign 1 (.bin .add (.var 1) (.idx1 2 (.var 0)))))).sync = [1] := by decide
+/-- a scalar read in the loop bounds and written in the body is firstprivate -/
+example : (inferSharing (.loop 0 (.lit 0) (.var 1) (.lit 1)
+    (.seq (.assign 1 (.lit 3)) (.store1 3 (.var 0) (.var 1))))).fpriv = [1] := by decide
 
 end C09
